@@ -81,12 +81,15 @@ Inductive ccase :=
   (* tcp-services ConfigMap through the real pipeline: the data, the values whose service and
      port exist, and per port number the value that configured it (if any) *)
 | CTcp (id : N) (visit : list (string * string)) (valid_values : list string)
-       (queries : list (Z * option string)).
+       (queries : list (Z * option string))
+  (* sortHTTPRoutes (tcp = false) / sortTCPRoutes (tcp = true): (ns, name, stamp) in the order
+     handed to the code; observed ns/name order *)
+| CRouteSort (id : N) (tcp : bool) (routes : list (string * string * Z)) (observed : list string).
 
 Definition case_id (c : ccase) : N :=
   match c with
   | CSort i _ _ | CKeys i _ _ _ | CMapper i _ _ _ _ _ | CHosts i _ _ _
-  | CAlloc i _ _ _ | COAuth i _ _ | CAlias i _ _ _ | CTcp i _ _ _ => i
+  | CAlloc i _ _ _ | COAuth i _ _ | CAlias i _ _ _ | CTcp i _ _ _ | CRouteSort i _ _ _ => i
   end.
 
 Definition mk_ing (ns name : string) (stamp : Z) : ingress :=
@@ -147,6 +150,9 @@ Definition case_ok (c : ccase) : bool :=
   | CTcp _ visit valid_values queries =>
       forallb (fun q => ostr_eqb (option_map snd (tcp_owner (fun v => existsb (String.eqb v) valid_values) visit (fst q)))
                                  (snd q)) queries
+  | CRouteSort _ _ routes obs =>
+      str_list_eqb (map gr_full (sort_routes (map (fun t => {| gr_ing := mk_ing (fst (fst t)) (snd (fst t)) (snd t);
+                                                                 gr_claims := [] |}) routes))) obs
   end.
 
 Definition mismatches (cs : list ccase) : list N :=
